@@ -42,10 +42,15 @@ def loc(site):
 def call_events(path, callee, outcome="ok"):
     """top-level call events of `path` to the given callee string with the given outcome"""
     out = []
-    for ev in path.events:
+    for ev, _d in flatten_events(path.events):
         if ev[0] == "call" and ev[2] == callee and (outcome is None or ev[5][0] == outcome):
             out.append(ev)
     return out
+
+
+def flat(path):
+    """all events of a path with inlined callees expanded in place"""
+    return [ev for ev, _d in flatten_events(path.events)]
 
 
 def mentions(f, t):
@@ -62,3 +67,15 @@ def fn_site(eng, sm):
 
 CHECKER = "repo:common.checkformat_delegating_metadata"
 VSIG = "repo:authentication.verify_signable"
+
+
+def own_site(eng, site, anchor_qualname):
+    """is this site inside the anchor function itself or one of the private helpers of its module
+    (which are analysed as one unit with it)"""
+    if site is None:
+        return False
+    if site.fn == anchor_qualname:
+        return True
+    fi = eng.prog.funcs.get(site.fn)
+    afi = eng.prog.funcs.get(anchor_qualname)
+    return fi is not None and afi is not None and fi.mod.short == afi.mod.short and site.fn in eng.private_helpers(fi.mod.short)
